@@ -2,12 +2,17 @@
    Case:  mode opts len bytes...      (same as harness/h_c04.cpp; opts bits 8.. select the buffer-size variant of the
                                        implementation run and are irrelevant here: readers are written against the abstract stream)
      mode 0  aspif reader  (V.C01.Read.read_all)
-     mode 1  smodels reader (V.C07.Model.read_smodels; option bits 1 claspExt, 8 filter; cEdge/cHeuristic (2,4) are not modelled -> [])
+     mode 1  smodels reader (option bits 1 claspExt, 2 cEdge, 4 cHeuristic, 8 filter): V.C07.Model.read_smodels when cEdge = cHeuristic = false,
+             else C07's reader with the symbol table handed to the special-predicate pass of V.C08.Model (V.C04.Pipe.read_smodels_x)
      mode 2  ground-text reader (V.C10.Model.read_text)
-     mode >= 3  lpconvert pipelines: not modelled (sanitizer runs only) -> []
-   Observation: status (0 accepted, 1 error reported), number of error reports, error line, 0 (leak flag), delivered calls. *)
+     mode 3..6  the lpconvert pipelines, composed in V.C04.Pipe from the reader, converter and writer models:
+             3 aspif -> SmodelsConvert -> SmodelsOutput (opts bit 1: potassco)       4 aspif -> AspifTextOutput
+             5 smodels -> AspifOutput (opts bit 1: potassco, 2: filter)               6 smodels -> AspifTextOutput (same bits)
+     mode 7  app/lpconvert.cpp itself: format chosen by the first byte, opts bits 1 -p, 2 -f, 4 -t
+   Observation: status (0 accepted, 1 error reported), number of error reports, error line, 0 (leak flag), then the delivered calls
+   (modes 0-2) or the length and bytes of the output (modes 3-7). *)
 Require Import V.Lib.Base V.Lib.Calls.
-Require V.C01.Read V.C07.Model V.C10.Model.
+Require V.C01.Read V.C07.Model V.C10.Model V.C04.Pipe.
 Local Open Scope Z_scope.
 
 Definition obs_ok (cs : list call) : list Z := 0 :: 0 :: 0 :: 0 :: enc_calls cs.
@@ -20,8 +25,7 @@ Definition run_aspif (t : list Z) : list Z :=
   end.
 
 Definition run_smodels (o : Z) (t : list Z) : list Z :=
-  if negb ((o / 2) mod 4 =? 0) then [] else
-  match V.C07.Model.read_smodels (V.C07.Model.mkopts (Z.odd o) (negb ((o / 8) mod 2 =? 0))) t with
+  match V.C04.Pipe.read_smodels_opts (V.C04.Pipe.bit o 1) (V.C04.Pipe.bit o 2) (V.C04.Pipe.bit o 4) (V.C04.Pipe.bit o 8) t with
   | (cs, V.C07.Model.Ok _) => obs_ok cs
   | (cs, V.C07.Model.Err ln) => obs_err ln cs
   | (cs, V.C07.Model.Fuel) => [-1]
@@ -41,6 +45,11 @@ Definition run_case (c : list Z) : list Z :=
       if mode =? 0 then run_aspif t
       else if mode =? 1 then run_smodels o t
       else if mode =? 2 then run_text t
+      else if mode =? 3 then V.C04.Pipe.enc_pres (V.C04.Pipe.pipe_a2s (V.C04.Pipe.bit o 1) t)
+      else if mode =? 4 then V.C04.Pipe.enc_pres (V.C04.Pipe.pipe_a2t t)
+      else if mode =? 5 then V.C04.Pipe.enc_pres (V.C04.Pipe.pipe_s2a (V.C04.Pipe.bit o 1) (V.C04.Pipe.bit o 2) t)
+      else if mode =? 6 then V.C04.Pipe.enc_pres (V.C04.Pipe.pipe_s2t (V.C04.Pipe.bit o 1) (V.C04.Pipe.bit o 2) t)
+      else if mode =? 7 then V.C04.Pipe.enc_lpconvert (V.C04.Pipe.lpconvert o t)
       else []
   | _ => []
   end.
